@@ -18,6 +18,12 @@ Oracle (expected values are read from the *file bytes* with struct, never from t
                import list holds an address a with libs.fad2info[a] == (library base, function) and
                libs.fad2cname[a] == canon_libname_libfunc(library, function)
 
+Import histories  images with long import tables (mc/pegen.IMPORT_SHAPES: 255/256/257/300/600 functions of one DLL,
+     the big DLL first / in the middle / last, two big DLLs) and an ELF importing 300 functions are loaded and resolved
+     one after the other against ONE libimp (1..3 images per history). After the last image every slot of every
+     image must hold a stub that maps back to exactly its (library, function) through fad2info and fad2cname, and no
+     stub address may be held by the slots of two different imports.
+
 Calls that raise are refusals (counted); images the C42 check already shows to be serialised wrongly (section
 table over section data) are skipped and counted, they say nothing about loading.
 """
@@ -335,6 +341,137 @@ def check_elf(name, load_base):
     return vs, st
 
 
+
+# ---------------------------------------------------------------------------------------------------------------
+# import histories: long import tables, several libraries, several images resolved against ONE libimp
+
+PE_BASES = (0x400000, 0x1400000, 0x2400000)
+ELF_MANY = {32: "many.m32.so", 64: "many.gcc.so"}
+
+# a history = images loaded and resolved one after the other with the same Vm and the same libimp
+# ("pe", shape) is an image of pegen.IMPORT_SHAPES, ("elf", file) a corpus file
+IMPORT_HISTORIES_QUICK = (
+    [("pe", "small")], [("pe", "n255")], [("pe", "n256")], [("pe", "n257")],
+    [("pe", "big_last")], [("pe", "big_first")], [("pe", "big_middle")], [("pe", "two_big")], [("pe", "huge_first")],
+    [("pe", "big_last"), ("pe", "small2")],          # the library created by the SECOND image follows an overflowing one
+    [("pe", "n256"), ("pe", "small2")], [("pe", "n257"), ("pe", "small2")],
+    [("pe", "small"), ("pe", "big_first")], [("pe", "big_first"), ("pe", "big_first")],
+    [("pe", "two_big"), ("pe", "big_middle")],
+    [("elf", "many")], [("elf", "many"), ("pe", "small")], [("pe", "small"), ("elf", "many"), ("pe", "small2")],
+)
+
+
+def import_histories(tier):
+    if tier == "quick":
+        return [list(h) for h in IMPORT_HISTORIES_QUICK]
+    items = [("pe", k) for k in sorted(pegen.IMPORT_SHAPES)] + [("elf", "many")]
+    out = [[a] for a in items]
+    out += [[a, b] for a in items for b in items]
+    out += [[("pe", "small"), a, ("pe", "small2")] for a in items]
+    return out
+
+
+_IMG_CACHE = {}
+
+
+def _import_image(wsize, shape, base):
+    k = (wsize, shape, base)
+    if k not in _IMG_CACHE:
+        _IMG_CACHE[k] = pegen.build_import_image(wsize, shape, base)
+    return _IMG_CACHE[k]
+
+
+def history_skeleton(history):
+    """Class of a history for signatures: does a library that overflows its stub region (> 256 imports) exist, and is
+    another library created after it?"""
+    libs = []
+    for kind, what in history:
+        if kind == "pe":
+            for dll, n in pegen.IMPORT_SHAPES[what]:
+                if dll not in [l for l, _ in libs]:
+                    libs.append((dll, n))
+        else:
+            if "xxx" not in [l for l, _ in libs]:
+                libs.append(("xxx", elfcorpus.MANY_IMPORTS + 5))
+    over = [i for i, (_, n) in enumerate(libs) if n > 256]
+    if not over:
+        return "no-library-over-256"
+    return "library-over-256-then-new-library" if over[0] < len(libs) - 1 else "library-over-256-is-last"
+
+
+def check_import_history(wsize, history):
+    from miasm.jitter.loader.pe import vm_load_pe, preload_pe, libimp_pe
+    from miasm.jitter.loader.elf import vm_load_elf, preload_elf
+    from miasm.jitter.loader.utils import canon_libname_libfunc
+    _quiet()
+    case = {"k": "imports", "wsize": wsize, "history": [list(h) for h in history]}
+    st = {"outcome": None, "slots": 0, "stubs": 0, "images": len(history)}
+    skel = history_skeleton(history)
+    vs = []
+
+    def bad(kind, what):
+        sig = "imports:%s:%s" % (skel, kind)
+        if all(v["sig"] != sig for v in vs):
+            vs.append(violation(sig, "%s [wsize %d, history %r]" % (what, wsize, history), case))
+
+    vm = vm_class()()
+    libs = libimp_pe()
+    psz = wsize // 8
+    expected = []          # (library name, function, slot address, byte order)
+    try:
+        for idx, (kind, what) in enumerate(history):
+            if kind == "pe":
+                data, model = _import_image(wsize, what, PE_BASES[idx])
+                pe = vm_load_pe(vm, data, name="img%d" % idx)
+                preload_pe(vm, pe, libs)
+                expected += [(dll.lower(), f, slot, "<") for dll, f, slot in model]
+            else:
+                ent = elfcorpus.get(ELF_MANY[wsize])
+                elf = vm_load_elf(vm, ent["data"], name=what)
+                before = dict((f, set(d)) for f, d in libs.lib_imp2dstad.get(libs.name2off.get("xxx.dll"), {}).items())
+                preload_elf(vm, elf, libs)
+                lib = libs.name2off["xxx.dll"]
+                for f in sorted(libs.lib_imp2dstad[lib], key=repr):
+                    for dst in sorted(libs.lib_imp2dstad[lib][f] - before.get(f, set())):
+                        expected.append(("xxx.dll", f, dst, "<"))
+                want = set("imp%03d" % k for k in range(elfcorpus.MANY_IMPORTS))
+                got = set(f for (l, f, _, _) in expected if l == "xxx.dll")
+                if not want <= got:
+                    bad("elf-imports-not-resolved", "%d of the %d imported functions of %s have no resolved slot"
+                        % (len(want - got), len(want), ent["name"]))
+    except Exception as e:
+        bad("raise-%s" % type(e).__name__, "loading/resolving image %d raised %r" % (idx, e))
+        st["outcome"] = "violation"
+        return vs, st
+    # every slot, read after ALL images have been resolved
+    stub_of = {}
+    fmt = "<I" if psz == 4 else "<Q"
+    for lib, f, slot, _ in expected:
+        st["slots"] += 1
+        a = struct.unpack(fmt, vm.get_mem(slot, psz))[0]
+        stub_of.setdefault(a, set()).add((lib, f))
+        libad = libs.name2off.get(lib)
+        info = libs.fad2info.get(a)
+        if libad is None or info != (libad, f):
+            back = None
+            if info is not None:
+                back = ([n for n, b in libs.name2off.items() if b == info[0]] or [hex(info[0])])[0], info[1]
+            bad("slot-maps-back-to-another-function", "slot %#x imports %s!%r and holds stub %#x, which fad2info maps back to %r"
+                % (slot, lib, f, a, back))
+        elif libs.fad2cname.get(a) != canon_libname_libfunc(lib, f):
+            bad("fad2cname-maps-back-to-another-function", "slot %#x imports %s!%r and holds stub %#x, fad2cname says %r"
+                % (slot, lib, f, a, libs.fad2cname.get(a)))
+        elif libs.cname2addr.get(libs.fad2cname[a]) != a and not isinstance(f, int):
+            bad("cname2addr-not-inverse", "cname2addr[%r] = %r, the stub is %#x" % (libs.fad2cname[a], libs.cname2addr.get(libs.fad2cname[a]), a))
+    st["stubs"] = len(stub_of)
+    shared = sorted((a, sorted(fs, key=repr)) for a, fs in stub_of.items() if len(fs) > 1)
+    if shared:
+        a, fs = shared[0]
+        bad("stub-address-shared", "stub address %#x is held by the slots of %d different imports: %r ... (%d shared addresses)"
+            % (a, len(fs), fs[:3], len(shared)))
+    st["outcome"] = "violation" if vs else "ok"
+    return vs, st
+
 # ---------------------------------------------------------------------------------------------------------------
 
 BOUNDS = {
@@ -414,6 +551,25 @@ def _shard(args):
             account(vs, st, "pe")
             if res["sample"] is None and st["outcome"] == "ok" and spec[3] == 3 and len(spec[2]) == 3:
                 res["sample"] = {"spec": spec, "align_s": align_s}
+    elif kind == "imports":
+        _, tier, idx, nsh = args
+        for k, hist in enumerate(import_histories(tier)):
+            if k % nsh != idx:
+                continue
+            for ws in (32, 64):
+                vs, st = check_import_history(ws, hist)
+                res["n"] += 1
+                res["nt"] += 1
+                _bump(res["outcomes"], "imports:%s:%s" % (history_skeleton(hist), st["outcome"]))
+                _bump(res["tot"], "import_history_slots", st["slots"])
+                _bump(res["tot"], "import_history_stubs", st["stubs"])
+                for v in vs:
+                    c = res["per_sig"].get(v["sig"], 0)
+                    res["per_sig"][v["sig"]] = c + 1
+                    if c < 2:
+                        res["vs"].append(v)
+                if res["sample"] is None and len(hist) > 1:
+                    res["sample"] = {"wsize": ws, "history": hist}
     else:
         _, name, base = args
         vs, st = check_elf(name, base)
@@ -437,6 +593,8 @@ def run(ctx):
         if t["ehdr"]["type"] == 3:
             shards.append(("elf", ent["name"], ELF_BASE_ALT))
             n_elf += 1
+    nih = 16 if ctx.quick else 64
+    shards = [("imports", tier, i, nih) for i in range(nih)] + shards
     res = ctx.pmap(_shard, shards)
     outcomes, per_sig, tot = {}, {}, {}
     allv = []
@@ -453,6 +611,8 @@ def run(ctx):
         c = v["case"]
         if c["k"] == "pe":
             return (len(c["spec"][2]), repr(c["spec"]))
+        if c["k"] == "imports":
+            return (len(c["history"]), repr(c["history"]) + str(c["wsize"]))
         return (len(elfcorpus.get(c["file"])["data"]), c["file"])
     allv.sort(key=lambda v: (v["sig"],) + size_key(v))
     seen = {}
@@ -471,6 +631,11 @@ def run(ctx):
                           "import_menus": 4, "export_reloc_menus": b["dir_menus"], "align_s": [True, False],
                           "all_36^3_three_section_layouts": bool(b.get("full_3sec")),
                           "hdr_and_import_menus_for_the_36^3_part": [[pegen.HDR_NAMES[h] for h in EXTREME_HDRS], list(EXTREME_IMPS)]},
+                   "import_histories": {"shapes": {k: v for k, v in sorted(pegen.IMPORT_SHAPES.items())},
+                                        "histories": len(import_histories(tier)), "wsize": [32, 64],
+                                        "elf_with_%d_imports" % elfcorpus.MANY_IMPORTS: sorted(ELF_MANY.values()),
+                                        "rule": "quick: the listed histories; thorough: every single image, every ordered pair "
+                                                "and small-X-small2 triples over all shapes and the many-imports ELF"},
                    "elf": {"corpus_files": len(entries), "load_bases": [0, ELF_BASE_ALT], "loads": n_elf}},
         "distinct_outcomes": len(outcomes),
         "outcomes": outcomes,
@@ -484,4 +649,6 @@ def run(ctx):
 def replay(case):
     if case["k"] == "pe":
         return check_pe(case["spec"], case["align_s"])[0]
+    if case["k"] == "imports":
+        return check_import_history(case["wsize"], [tuple(h) for h in case["history"]])[0]
     return check_elf(case["file"], case["base"])[0]
